@@ -6,7 +6,10 @@
 //   scraper = (items, (metric count, (0 ok | 1 partial | 2 error, failed)))
 // Direct oracle (independent of the Coq model): receiver accepted + refused OF THE CONTROLLER'S OWN
 // SIGNAL equals the items the consumer was actually offered (its own tally), accepted = those of the
-// successful consume calls, and no receiver counter of another signal moves.
+// successful consume calls, and no receiver counter of another signal moves; every instrument (incl. the
+// scraped/errored counters of the wrappers) has the same value when the same history is replayed under a
+// tracer whose spans record and one whose spans do not (no-op provider / dropping sampler); recorded spans
+// carry the same numbers as the counters.
 package scraperhelper
 
 import (
@@ -86,7 +89,7 @@ func vC19ScrErr(r vScrRes) error {
 	return nil
 }
 
-func vC19ScrTerm(kind int, ops []vScrape, vec [vC19NCounters]int64) string {
+func vC19ScrTerm(recording bool, kind int, ops []vScrape, vec [vC19NCounters]int64) string {
 	it := make([]string, len(ops))
 	for i, o := range ops {
 		rs := make([]string, len(o.res))
@@ -95,20 +98,20 @@ func vC19ScrTerm(kind int, ops []vScrape, vec [vC19NCounters]int64) string {
 		}
 		it[i] = vPair(vList(rs), vBool(o.err))
 	}
-	return fmt.Sprintf("CScr %s %s %s", vZ(int64(kind)), vList(it), vC19Vec(vec))
+	return fmt.Sprintf("CScr %s %s %s %s", vBool(recording), vZ(int64(kind)), vList(it), vC19Vec(vec))
 }
 
 // vC19RunScrapes runs one history on the real controller and returns the counters plus the
 // consumer's own tally (items offered per consume call).
-func vC19RunScrapes(t *testing.T, kind int, nscr int, ops []vScrape) (vC19Tel, []int) {
-	tel := componenttest.NewTelemetry()
+func vC19RunScrapes(t *testing.T, mode int, kind int, nscr int, ops []vScrape) (vC19Tel, []int, bool) {
+	tel, tset, recording := vC19NewTel(mode)
 	defer func() { _ = tel.Shutdown(context.Background()) }()
 	var mu sync.Mutex
 	cur := 0 // index of the scrape in progress; advanced by the consumer (called once per scrape)
 	var offered []int
 	consumed := make(chan struct{}, len(ops)+1)
 	tick := make(chan time.Time)
-	rset := receiver.Settings{ID: component.MustNewID("verifrecv"), TelemetrySettings: tel.NewTelemetrySettings(), BuildInfo: component.NewDefaultBuildInfo()}
+	rset := receiver.Settings{ID: component.MustNewID("verifrecv"), TelemetrySettings: tset, BuildInfo: component.NewDefaultBuildInfo()}
 	cfg := NewDefaultControllerConfig()
 	cfg.InitialDelay = 0
 	cfg.CollectionInterval = time.Hour
@@ -191,7 +194,7 @@ func vC19RunScrapes(t *testing.T, kind int, nscr int, ops []vScrape) (vC19Tel, [
 	if err = r.Shutdown(context.Background()); err != nil {
 		t.Fatal(err)
 	}
-	return vC19Read(tel), offered
+	return vC19Read(tel), offered, recording
 }
 
 func TestVerifC19Scraper(t *testing.T) {
@@ -202,7 +205,7 @@ func TestVerifC19Scraper(t *testing.T) {
 	for c := 0; c < ncases; c++ {
 		kind := 0
 		emptyLogs := false
-		if rng.Intn(6) == 0 { // ~17 % logs controllers, half of them offering no record at all
+		if rng.Intn(9) == 0 { // ~11 % logs controllers, half of them offering no record at all
 			kind = 1
 			emptyLogs = rng.Bool()
 		}
@@ -240,8 +243,10 @@ func TestVerifC19Scraper(t *testing.T) {
 			}
 			out.Stat(fmt.Sprintf("scrape_kind%d_consumererr%v", kind, ops[k].err), 1)
 		}
-		got, offered := vC19RunScrapes(t, kind, nscr, ops)
-		term := vC19ScrTerm(kind, ops, got.vec)
+		mode := vC19TelMode(rng)
+		out.Stat(fmt.Sprintf("tracer_mode%d", mode), 1)
+		got, offered, recording := vC19RunScrapes(t, mode, kind, nscr, ops)
+		term := vC19ScrTerm(recording, kind, ops, got.vec)
 		// ---- direct oracle --------------------------------------------------------------------
 		var tot, acc int64
 		for k, n := range offered {
@@ -263,15 +268,39 @@ func TestVerifC19Scraper(t *testing.T) {
 				ok = ok && a == 0 && r == 0
 			}
 		}
+		// the spans of the operations carry the same numbers as the counters when they record, nothing otherwise
+		for i := 0; i < 10; i++ {
+			if recording {
+				ok = ok && got.vec[vC19SpanBase+i] == got.vec[i]
+			} else {
+				ok = ok && got.vec[vC19SpanBase+i] == 0
+			}
+		}
+		// differential oracle: the same history under a recording tracer must move every instrument alike
+		// (the counters must not depend on the tracer provider / sampler)
+		if mode != 0 {
+			ref, _, _ := vC19RunScrapes(t, 0, kind, nscr, ops)
+			for i := 0; i < vC19SpanBase; i++ {
+				if ref.vec[i] != got.vec[i] {
+					out.Oracle("counters-depend-on-tracing", term,
+						fmt.Sprintf("tracer_mode=%d vs 0: counter #%d is %d with non-recording spans and %d with recording spans", mode, i, got.vec[i], ref.vec[i]))
+					break
+				}
+			}
+		}
 		if !ok {
-			if kind == 1 && tot > 0 && got.vec[4] == 0 && got.vec[5] == 0 && got.vec[0] == 0 && got.vec[1] == 0 &&
+			spansOK := true
+			for i := 0; i < 10; i++ {
+				spansOK = spansOK && ((recording && got.vec[vC19SpanBase+i] == got.vec[i]) || (!recording && got.vec[vC19SpanBase+i] == 0))
+			}
+			if spansOK && kind == 1 && tot > 0 && got.vec[4] == 0 && got.vec[5] == 0 && got.vec[0] == 0 && got.vec[1] == 0 &&
 				got.vec[2] == acc && got.vec[3] == tot-acc && len(got.unknown) == 0 && len(offered) == len(ops) {
 				out.Oracle("scraper-logs-counted-as-metric-points", term,
 					fmt.Sprintf("logs controller: offered_log_records=%d accepted+refused_log_records=0 accepted_metric_points=%d refused_metric_points=%d", tot, got.vec[2], got.vec[3]))
 				out.Stat("known_region_S5", 1)
 			} else {
 				out.Oracle("scraper-imbalance", term,
-					fmt.Sprintf("kind=%d offered=%d accepted_expected=%d consume_calls=%d/%d counters=%v unknown=%v", kind, tot, acc, len(offered), len(ops), got.vec, got.unknown))
+					fmt.Sprintf("tracer_mode=%d kind=%d offered=%d accepted_expected=%d consume_calls=%d/%d counters=%v unknown=%v", mode, kind, tot, acc, len(offered), len(ops), got.vec, got.unknown))
 			}
 		}
 		out.Case(true, term)
